@@ -29,7 +29,8 @@ RULE = (
     "loop: n in 1..40 inputs; per (input, original|backup) a completion class (fast {0,0.5,1,1.5,2}, 'tie' = completes at "
     "exactly the instant its twin completes, straggler 3x-100x) and k in 0..retries+2 leading failing attempts; use_backups "
     "{off,on} x batch_size {None,<n,=n,>n} x retries {0,1,2} x input {list, one-shot iterator} x return_stats x processing "
-    "order of same-round completions {original first, backup first, reversed, native set order}. Thorough additionally "
+    "order of same-round completions {original first, backup first, reversed, native set order} x 6 future-hash permutations "
+    "(iteration order of cubed's sets of futures). Thorough additionally "
     "enumerates completely: 10 fast fillers + 1..2 scripted inputs (3 in a reduced option set) over the 3x3 alphabet "
     "{fast,tie,20x} x {0, retries, retries+1 failures} for original and backup, all option combinations. "
     "Non-trivial = at least one attempt really failed or at least one backup was really launched in the run; distinct = "
@@ -41,7 +42,9 @@ ASSUMPTIONS = [
     "cubed.runtime.asyncio.time, restored afterwards); async_map_unordered, should_launch_backup, batched and the tenacity "
     "retry wrapper are the real ones; all attempts of one submission happen at its scripted completion instant",
     "the processing order of tasks that finish in the same asyncio.wait round is chosen by the harness through a set "
-    "subclass returned by a pass-through asyncio.wait (any order is a legal behaviour of the real set); mode 'native' patches nothing",
+    "subclass returned by a pass-through asyncio.wait (any order is a legal behaviour of the real set); mode 'native' leaves asyncio.wait alone",
+    "futures created by the virtual loop hash by creation number (a permutation selected by the case) instead of by memory address, so "
+    "the iteration order of cubed's sets of futures (same-round processing, order in which backups are launched) is reproducible",
     "empty input is outside the domain (every cubed operation has >= 1 task); inputs are distinct",
     "nothing requires a backup to be launched: an input whose only submission exhausts its retries must raise; a raise for input i "
     "is judged legitimate iff no submission of i made so far succeeded or is still pending and scripted to succeed",
@@ -101,7 +104,7 @@ def run_script(case) -> Obs:
     base = case.get("base")  # optional per-input fast durations
     script = _script_map(case)
 
-    loop = VirtualTimeLoop(max_time=1e5, max_iters=400_000, hash_perm=case.get("hperm", 0))
+    loop = VirtualTimeLoop(max_time=2e4, max_iters=400_000, hash_perm=case.get("hperm", 0))  # worst legal schedule: 43 sequential inputs x (100 + 100)
     obs = Obs()
     obs.results = []
     obs.bad_attempts = []
